@@ -9,6 +9,7 @@ import (
 
 	"github.com/NVIDIA/KAI-scheduler/pkg/scheduler/api"
 	"github.com/NVIDIA/KAI-scheduler/pkg/scheduler/api/common_info"
+	"github.com/NVIDIA/KAI-scheduler/pkg/scheduler/api/pod_status"
 	"github.com/NVIDIA/KAI-scheduler/pkg/scheduler/api/podgroup_info"
 	"github.com/NVIDIA/KAI-scheduler/pkg/scheduler/api/queue_info"
 	"github.com/NVIDIA/KAI-scheduler/pkg/scheduler/framework"
@@ -205,23 +206,29 @@ func (mr *minruntimePlugin) cacheReclaimProtection(pendingJob *podgroup_info.Pod
 }
 
 func validVictimForMinAvailable(victimInfo *api.VictimInfo) bool {
-	numVictimTasksPerSubGroup := map[string]int32{}
+	victimTasks := map[common_info.PodID]bool{}
+	victimSubGroups := map[string]bool{}
 	for _, task := range victimInfo.Tasks {
 		subGroupName := podgroup_info.DefaultSubGroup
 		if task.SubGroupName != "" {
 			subGroupName = task.SubGroupName
 		}
-		numVictimTasksPerSubGroup[subGroupName]++
+		victimTasks[task.UID] = true
+		victimSubGroups[subGroupName] = true
 	}
 
-	numCurrentlyRunningSubGroup := map[string]int32{}
-	for subGroupName := range numVictimTasksPerSubGroup {
-		numCurrentlyRunningSubGroup[subGroupName] = int32(victimInfo.Job.GetSubGroups()[subGroupName].GetNumActiveAllocatedTasks())
-	}
-
-	for subGroupName, numVictims := range numVictimTasksPerSubGroup {
-		subGroupCurrentlyRunning := numCurrentlyRunningSubGroup[subGroupName]
-		if victimInfo.Job.GetSubGroups()[subGroupName].GetMinAvailable() > subGroupCurrentlyRunning-numVictims {
+	// The pods that stay: active allocated pods of the sub group that are not victims of this scenario.
+	// The victims may or may not be virtually evicted already when the scenario is validated; pods
+	// evicted earlier (or still terminating) never count as running.
+	for subGroupName := range victimSubGroups {
+		subGroup := victimInfo.Job.GetSubGroups()[subGroupName]
+		remaining := int32(0)
+		for _, pod := range subGroup.GetPodInfos() {
+			if pod_status.IsActiveAllocatedStatus(pod.Status) && !victimTasks[pod.UID] {
+				remaining++
+			}
+		}
+		if subGroup.GetMinAvailable() > remaining {
 			return false
 		}
 	}
